@@ -1326,11 +1326,6 @@ func runC08(c *core.Ctx) {
 			}
 			lay := b.layout[0][col]
 			for _, o := range []c08Open{{}, {SkipIndex: true}} {
-				// quick tier: the index-less / lazily indexed cursor on the required, the
-				// list and the dictionary column (v2) and the required and list column (v1)
-				if c.Quick() && o.SkipIndex && (col == 1 || col == 4 || (v == 1 && col != 0 && col != 2)) {
-					continue
-				}
 				alphabet := []string{"r"}
 				for _, k := range c08SeekPoints(lay, b.rgRows[0], true) {
 					alphabet = append(alphabet, fmt.Sprintf("s%d", k))
@@ -1379,11 +1374,7 @@ func runC08(c *core.Ctx) {
 			if target == "reader" && (v == 2 || !c.Quick()) {
 				alpha = append(append([]string(nil), falpha...), "g")
 			}
-			n := length
-			if c.Quick() && target == "multirows" {
-				n = length - 1
-			}
-			exhaustive(c08Case{File: p2, Target: target}, alpha, n,
+			exhaustive(c08Case{File: p2, Target: target}, alpha, length,
 				fmt.Sprintf("exhaustive/%s/v%d", target, v), 97)
 		}
 		// multiPages: the pages of a column over both row groups
@@ -1404,7 +1395,6 @@ func runC08(c *core.Ctx) {
 		}
 	}
 	c.Res.Exhaustive = true
-	c.Note("quick tier: the rows of the MultiRowGroup are enumerated one operation shorter; the index-less page cursor on 3 (v2) / 2 (v1) of the 5 columns")
 	c.Note("exhaustive: all histories of length %d (async pages: %d) over the alphabets {ReadPage, SeekToRow(0, first page boundary -1/0/+1, page 5 boundary 0/+1, N-1, N, N+3)[, load index]} and {ReadRows 1/3/64, SeekToRow(0, boundary-1, boundary[, +1], N-1, N), Reset} on 22-row files", length, length-1)
 
 	// ---- random histories on larger files
